@@ -134,6 +134,10 @@ Inductive api : Type :=
 | AEncryptWith (m k : nat)        (* EncryptFragment on every fragment of m with protect data k; in place on m ONLY *)
 | AToByteStream (o : nat)         (* avc.ConvertSampleToByteStream on the samples of o, in place *)
 | AToNaluSample (o : nat)         (* avc.ConvertByteStreamToNaluSample (4-byte start codes), in place *)
+| ATouch (o : nat)                (* FtypBox / StypBox.AddCompatibleBrands, MdatBox.AddSampleData on the boxes of o: a byte field
+                                     that may be a view of the input grows by append.  FixedSliceReader.ReadBytes clips the
+                                     capacity of its result (repo fix c5165a3), so append REPLACES the field by a fresh
+                                     array: the structure changes, no payload byte is written *)
 | ASetBoxDecoder                  (* mp4.SetBoxDecoder: excluded by the property, modelled to show why *)
 | ARemoveBoxDecoder.
 
@@ -196,6 +200,8 @@ Definition api_fp (t : thread) (st : astate) (a : api) : list loc * list assign 
       ([sloc t o; pl t st o; gTables], [(sloc t o, f_touch); (pl t st o, f_crypt)])
   | AToByteStream o | AToNaluSample o =>
       ([pl t st o], [(pl t st o, f_conv)])
+  | ATouch o =>
+      ([sloc t o; pl t st o; gTables], [(sloc t o, f_touch)])
   | ASetBoxDecoder | ARemoveBoxDecoder =>
       ([gDecoders; gDecodersSR], [(gDecoders, f_touch); (gDecodersSR, f_touch)])
   end.
@@ -256,7 +262,7 @@ Definition api_target (a : api) : nat :=
   | ADecode _ d | ADecodeSR _ d | AInfo _ d | AEncode _ d | AEncodeSW _ d | ASamples _ d => d
   | ADecryptInit _ d | AInitProtect _ d => d
   | ADecryptWith m _ | AEncryptWith m _ => m
-  | AEncrypt o | ADecrypt o | AToByteStream o | AToNaluSample o => o
+  | AEncrypt o | ADecrypt o | AToByteStream o | AToNaluSample o | ATouch o => o
   | _ => 0%nat
   end.
 
